@@ -84,7 +84,9 @@ def run_tlc(module: str, cfg_text: str, workdir: str, *, workers=16, env=None, s
     meta = os.path.join(workdir, f"{tag}.meta")
     shutil.rmtree(meta, ignore_errors=True)
     out_path = os.path.join(workdir, f"{tag}.out")
-    cmd = ["java", f"-Xmx{heap}"] + ([f"-Xss{stack}"] if stack else []) + ["-XX:+UseParallelGC", "-cp", JAR, "tlc2.TLC",
+    jtmp = os.path.join(workdir, "jtmp")          # TLC unpacks its standard modules into java.io.tmpdir on every start:
+    os.makedirs(jtmp, exist_ok=True)               # keep that inside the work directory so that it goes away with it
+    cmd = ["java", f"-Xmx{heap}", f"-Djava.io.tmpdir={jtmp}"] + ([f"-Xss{stack}"] if stack else []) + ["-XX:+UseParallelGC", "-cp", JAR, "tlc2.TLC",
            "-workers", str(workers), "-metadir", meta, "-noGenerateSpecTE", "-config", cfg]
     if simulate:
         cmd += ["-simulate", simulate]
